@@ -7,7 +7,7 @@ usage:
                                     # confirmed ones to /verif/seeded/<ID>-<variant>/
   run_seeded.py detect [names...]   # run `./check <ID>` (quick) against each seeded change; writes
                                     # /verif/seeded/results.json
-options: -j N workers (default 4), --tier quick|thorough, --also C01,C03 (extra properties to run)
+options: -j N workers (default 4), --tier quick|thorough, --also C01,C03 | --also related (extra properties to run)
 Every scratch worktree and its build output is removed when the worker is done with it.
 """
 import concurrent.futures
@@ -141,7 +141,17 @@ def cmd_confirm(src_dir, jobs):
     return results
 
 
+RELATED = {
+    "C01": ["C03", "C15", "C11"], "C02": ["C15", "C11", "C05"], "C03": ["C01", "C10", "C09"], "C04": ["C12", "C08", "C05"],
+    "C05": ["C12", "C02", "C14"], "C06": ["C07", "C01", "C16"], "C07": ["C06", "C01"], "C08": ["C04", "C15"],
+    "C09": ["C03", "C10"], "C10": ["C03", "C09", "C01"], "C11": ["C01", "C02"], "C12": ["C04", "C05", "C16"],
+    "C13": ["C12", "C05"], "C14": ["C16", "C01"], "C15": ["C01", "C02", "C08"], "C16": ["C12", "C14"], "C17": ["C06", "C14"],
+}
+
+
 def detect_one(name, tier, also):
+    if also == ["related"]:
+        also = RELATED.get(name.split("-")[0], [])
     d = os.path.join(VERIF, "seeded", name)
     pid = name.split("-")[0]
     wt = make_worktree("detect-" + name)
@@ -188,6 +198,11 @@ def cmd_detect(names, jobs, tier, also):
             except Exception as e:  # noqa
                 r = {"name": n, "error": repr(e)}
             key = n if tier == "quick" else n + "@" + tier
+            prev = results.get(key, {})
+            if prev.get("checks") and r.get("checks"):
+                merged = dict(prev["checks"])
+                merged.update(r["checks"])
+                r["checks"] = merged
             results[key] = r
             own = r.get("checks", {}).get(r.get("property"), {})
             print(n, tier, "DETECTED" if own.get("detected") else "MISSED/ERR %s" % (r.get("error") or own), {k: v["detected"] for k, v in r.get("checks", {}).items()}, flush=True)
